@@ -658,11 +658,16 @@ def _loop_env(f, node, base_env):
         cn = f.strip(n["cond"]) if n.get("cond", -1) >= 0 else -1
         if cn < 0 or f.k(cn) != "BinaryOperator":
             continue
-        v = f.strip(f.nodes[cn]["ch"][0])
-        if f.k(v) != "DeclRefExpr":
+        # the loop variable is the side of the condition that the increment part steps
+        incn = f.strip(n["inc"]) if n.get("inc", -1) >= 0 else -1
+        stepped = f.nodes[f.strip(f.nodes[incn]["ch"][0])]["decl"].get("id") if incn >= 0 and f.k(incn) == "UnaryOperator" and \
+            f.k(f.strip(f.nodes[incn]["ch"][0])) == "DeclRefExpr" else None
+        orr = f.oriented(cn, lambda x: f.k(x) == "DeclRefExpr" and (stepped is None or f.nodes[x]["decl"].get("id") == stepped))
+        if orr is None:
             continue
+        v, cop, bnode = orr
         name = f.nodes[v]["decl"]["name"]
-        bound = core.poly(f, f.nodes[cn]["ch"][1])
+        bound = core.poly(f, bnode)
         init = None
         ini = n.get("init", -1)
         if ini >= 0:
@@ -674,7 +679,7 @@ def _loop_env(f, node, base_env):
                 ap = ts.assign_parts(f, f.strip(ini))
                 if ap and ap[1] is not None and f.render(ap[0]) == name:
                     init = core.poly(f, ap[1])
-        op = f.nodes[cn]["op"]
+        op = cop
         one = Poly.const(1)
         inc = f.render(n["inc"]).replace(" ", "") if n.get("inc", -1) >= 0 else ""
         if op == "<" and inc in ("(%s++)" % name, "(++%s)" % name):
@@ -767,8 +772,9 @@ def _refine(f, node, env, left):
             continue
         c = f.strip(f.nodes[a]["cond"])
         n = f.nodes[c]
-        if n["k"] == "BinaryOperator" and n["op"] == ">" and f.nodes[f.strip(n["ch"][1])].get("cv") == 0:
-            inner = f.strip(n["ch"][0])
+        orr = f.oriented(c, lambda x: ts.assign_parts(f, x) is not None)
+        if orr and orr[1] == ">" and f.nodes[orr[2]].get("cv") == 0:
+            inner = orr[0]
             ap = ts.assign_parts(f, inner)
             if ap and ap[1] is not None and f.k(f.strip(ap[0])) == "DeclRefExpr":
                 v = f.nodes[f.strip(ap[0])]["decl"]["name"]
